@@ -184,12 +184,17 @@ def umeyama_oracle(run, case, x, y, with_scale, outcome, pfx="umeyama", cloud_rn
 
 
 # ------------------------------------------------------------------ object snapshots
-def field_snapshot(obj):
+def field_snapshot(obj, _seen=None):
     """
     Bit-level snapshot of the fields that currently exist on a trajectory / result object,
     WITHOUT forcing any lazy view (so the monitor neither masks nor creates stale caches).
+    (Objects reachable through dictionaries are followed once: metadata may refer back.)
     """
     snap = {}
+    _seen = set() if _seen is None else _seen
+    if id(obj) in _seen:
+        return {"<cycle>": ("val", "back-reference")}
+    _seen.add(id(obj))
     d = getattr(obj, "__dict__", {})
     for k, v in d.items():
         if isinstance(v, np.ndarray):
@@ -197,20 +202,20 @@ def field_snapshot(obj):
         elif isinstance(v, (list, tuple)) and len(v) and isinstance(v[0], np.ndarray):
             snap[k] = ("ndlist", len(v), b"".join(np.ascontiguousarray(a).tobytes() for a in v))
         elif isinstance(v, dict):
-            snap[k] = ("dict", _dict_snapshot(v))
+            snap[k] = ("dict", _dict_snapshot(v, _seen))
         else:
             snap[k] = ("val", repr(v))
     return snap
 
 
-def _dict_snapshot(dct):
+def _dict_snapshot(dct, _seen=None):
     out = {}
     for k in dct:
         v = dct[k]
         if isinstance(v, np.ndarray):
             out[repr(k)] = ("nd", v.shape, str(v.dtype), np.ascontiguousarray(v).tobytes())
         elif hasattr(v, "__dict__") and not isinstance(v, type):
-            out[repr(k)] = ("obj", field_snapshot(v))
+            out[repr(k)] = ("obj", field_snapshot(v, _seen))
         else:
             out[repr(k)] = ("val", repr(v))
     return out
